@@ -217,7 +217,8 @@ theorem glueOn_var {c : Compose.Conf} (hrep : c.replay = true) {fpa f' : Option 
   unfold glueOn at h
   split at h
   · rw [if_pos hrep] at h
-    exact friendly_var h
+    obtain ⟨rej, hc⟩ := Compose.friendlyOf_check c h
+    exact fpaCheck_var hc
   · injection h with h; rw [← (Prod.mk.inj h).1]
 
 /-- the rule object keeps its variant through the game -/
@@ -297,6 +298,9 @@ theorem glueCall_cur_ok (c : Compose.Conf) (hrep : c.replay = true) {b : Bot.St}
   unfold glueCall glueOn
   split
   · rw [if_pos hrep]
+    suffices h : ∃ x, Glue.friendlyGetMove fpa (recOf c b) b.cur.pos chk = .ok x by
+      obtain ⟨x, hx⟩ := h
+      exact ⟨x, Compose.friendlyOf_of_ok c hx⟩
     apply friendly_total_of _ _ _ _ hrule
     · intro hm
       have := hlen hm
@@ -421,14 +425,12 @@ theorem ruleTotal_of_safeInv {c : Compose.Conf} (hvar : ∀ var, confVariant c =
   · exact hI.sinv.core.shape (not_crashed_of_running hrun)
 
 /-- under the guard, with a rule that does not panic on this record and a sane check verdict, `enter` never kills a thinker -/
-theorem enter_dead_of (c : Compose.Conf) (hguard : c.guard = true) (hrep : c.replay = true) {p0 : Pos}
+theorem enter_dead_of_call (c : Compose.Conf) (hguard : c.guard = true) {p0 : Pos}
     {s : Compose.St σ χ} (hI : SafeInv c p0 s) (k : Nat) (chk : CheckOracle)
-    (hrule : s.b.status = .running → C20.RuleTotal s.fpa (recOf c s.b) s.b.cur.pos)
+    (hcall : s.b.status = .running → (asksPrev chk = true → s.b.cur.pos.move > 0) →
+      ∃ x, glueCall c s.fpa s.b s.b.cur chk = .ok x)
     (hchk : ∀ t, thinkerAt s.b k = some t → asksPrev chk = true → t.pos.move > 0) :
     (Compose.enter c s k chk).dead = s.dead := by
-  have hs := hI.sinv
-  have hP := hI.pinv
-  have hp0 := hI.p0m
   have hC := hI.canc
   unfold Compose.enter
   split
@@ -449,15 +451,34 @@ theorem enter_dead_of (c : Compose.Conf) (hguard : c.guard = true) (hrep : c.rep
         · split
           · rename_i e hg
             exfalso
-            obtain ⟨x, hx⟩ := glueCall_cur_ok c hrep hs hP hp0 (not_crashed_of_running hrun) s.fpa chk (hrule hrun)
-              (fun ha => by rw [← htc]; exact hchk t ht ha)
+            obtain ⟨x, hx⟩ := hcall hrun (fun ha => by rw [← htc]; exact hchk t ht ha)
             rw [htc, hx] at hg
             cases hg
           · rfl
 
-theorem deadBySearch_step_of (c : Compose.Conf) (hguard : c.guard = true) (hrep : c.replay = true)
+/-- under the guard, with a rule that does not panic on this record and a sane check verdict, `enter` never kills a thinker -/
+theorem enter_dead_of (c : Compose.Conf) (hguard : c.guard = true) (hrep : c.replay = true) {p0 : Pos}
+    {s : Compose.St σ χ} (hI : SafeInv c p0 s) (k : Nat) (chk : CheckOracle)
+    (hrule : s.b.status = .running → C20.RuleTotal s.fpa (recOf c s.b) s.b.cur.pos)
+    (hchk : ∀ t, thinkerAt s.b k = some t → asksPrev chk = true → t.pos.move > 0) :
+    (Compose.enter c s k chk).dead = s.dead :=
+  enter_dead_of_call c hguard hI k chk
+    (fun hrun hc => glueCall_cur_ok c hrep hI.sinv hI.pinv hI.p0m (not_crashed_of_running hrun) s.fpa chk (hrule hrun) hc) hchk
+
+/-- **what is asked of the calls** along an event list: whenever thinker `k` is let into `GetMove` while the loop runs, the
+call of the current thinker on the record as it stands runs through, provided the check verdict is sane.  `RuleOK` gives
+it (`callsOK_of_ruleOK`: `current_thinker_total`); with the declining scripts much less does (`C07.callsOK_declining`). -/
+def CallsOK (c : Compose.Conf) (S : Searcher σ χ) : Compose.St σ χ → List (Compose.Ev χ) → Prop
+  | _, [] => True
+  | s, e :: es =>
+    (match e with
+     | .enter _ chk => s.b.status = .running → (asksPrev chk = true → s.b.cur.pos.move > 0) →
+        ∃ x, glueCall c s.fpa s.b s.b.cur chk = .ok x
+     | _ => True) ∧ CallsOK c S (Compose.step c S s e) es
+
+theorem deadBySearch_step_of_call (c : Compose.Conf) (hguard : c.guard = true)
     (S : Searcher σ χ) {p0 : Pos} {s : Compose.St σ χ} (hI : SafeInv c p0 s)
-    (hD : DeadBySearch S s) (e : Compose.Ev χ) (hchk : ChkOK c S s [e]) (hrule : RuleOK c S s [e]) :
+    (hD : DeadBySearch S s) (e : Compose.Ev χ) (hchk : ChkOK c S s [e]) (hrule : CallsOK c S s [e]) :
     DeadBySearch S (Compose.step c S s e) := by
   unfold Compose.step
   split
@@ -474,7 +495,7 @@ theorem deadBySearch_step_of (c : Compose.Conf) (hguard : c.guard = true) (hrep 
     | enter k chk =>
       dsimp only
       intro e he
-      rw [enter_dead_of c hguard hrep hI k chk hrule.1 hchk.1, hnone] at he
+      rw [enter_dead_of_call c hguard hI k chk hrule.1 hchk.1, hnone] at he
       cases he
     | leave k x =>
       dsimp only
@@ -507,6 +528,27 @@ theorem deadBySearch_step_of (c : Compose.Conf) (hguard : c.guard = true) (hrep 
                   subst he'
                   exact ⟨call, x, lim, fl, hin, hact, hrun⟩
                 · exact hret _ _ _
+
+theorem deadBySearch_step_of (c : Compose.Conf) (hguard : c.guard = true) (hrep : c.replay = true)
+    (S : Searcher σ χ) {p0 : Pos} {s : Compose.St σ χ} (hI : SafeInv c p0 s)
+    (hD : DeadBySearch S s) (e : Compose.Ev χ) (hchk : ChkOK c S s [e]) (hrule : RuleOK c S s [e]) :
+    DeadBySearch S (Compose.step c S s e) := by
+  refine deadBySearch_step_of_call c hguard S hI hD e hchk ⟨?_, trivial⟩
+  cases e with
+  | enter k chk =>
+    exact fun hrun hc => glueCall_cur_ok c hrep hI.sinv hI.pinv hI.p0m (not_crashed_of_running hrun) s.fpa chk (hrule.1 hrun) hc
+  | _ => trivial
+
+theorem deadBySearch_run_call (c : Compose.Conf) (hguard : c.guard = true) (hrep : c.replay = true) (hfix : c.bot.fixed = true)
+    (S : Searcher σ χ) {p0 : Pos} (evs : List (Compose.Ev χ)) :
+    ∀ (s : Compose.St σ χ), SafeInv c p0 s → DeadBySearch S s → ChkOK c S s evs → CallsOK c S s evs →
+      DeadBySearch S (Compose.run c S s evs) := by
+  induction evs with
+  | nil => intro s _ hD _ _; exact hD
+  | cons e es ih =>
+    intro s hI hD hchk hrule
+    exact ih (Compose.step c S s e) (safeInv_step hrep hfix S hI e)
+      (deadBySearch_step_of_call c hguard S hI hD e ⟨hchk.1, trivial⟩ ⟨hrule.1, trivial⟩) hchk.2 hrule.2
 
 theorem deadBySearch_run (c : Compose.Conf) (hguard : c.guard = true) (hrep : c.replay = true) (hfix : c.bot.fixed = true)
     (S : Searcher σ χ) {p0 : Pos} (evs : List (Compose.Ev χ)) :
@@ -558,21 +600,15 @@ theorem bot_dead_only_by_search (c : Compose.Conf) (hguard : c.guard = true) (hr
   obtain ⟨p0, hI⟩ := safeInv_start (χ := χ) c hsize secs eng0
   exact deadBySearch_run c hguard hrep hfix S evs _ hI (fun _ h => by cases h) hchk hrule
 
-/-- **`bot_never_dead_guarded`** — with a searching player that answers on every `size`×`size` position from every state
-satisfying its invariant `G` (kept by every call), the composed system NEVER loses a thinker goroutine: for every event
-list with sane check verdicts and `RuleOK`, `dead = none`.  Together with `C07.bot_no_panic` (the protocol goroutine)
-this is C07's last clause — the bot process survives every interleaving — for the code as it is.  What remains after
-`fixes/C07-fpa-record-notes.diff`, exactly: `RuleOK` for double stack / cairn (their code panics on some records that are
-not openings played by the rule, `not_variantTotal_doubleStack`), and the searcher's totality. -/
-theorem bot_never_dead_guarded (c : Compose.Conf) (hguard : c.guard = true) (hrep : c.replay = true)
-    (hfix : c.bot.fixed = true) (hsize : 3 ≤ c.size ∧ c.size ≤ 8)
+/-- a searching player that answers on every `size`×`size` position from every state satisfying its invariant `G` never
+raises the error `DeadBySearch` leaves as the only way to lose a thinker -/
+theorem never_dead_of_deadBySearch (c : Compose.Conf) (hsize : 3 ≤ c.size ∧ c.size ≤ 8)
     (S : Searcher σ χ) (G : σ → Prop)
     (hS : ∀ x p e m e', p.cfg.size = c.size → G e → S.run x p e = .ok (m, e') → G e')
     (hT : ∀ x p e, p.cfg.size = c.size → G e → ∃ r, S.run x p e = .ok r)
     (secs : Int) (eng0 : σ) (h0 : G eng0) (evs : List (Compose.Ev χ))
-    (hchk : ChkOK c S (Compose.start c secs eng0) evs) (hrule : RuleOK c S (Compose.start c secs eng0) evs) :
+    (hD : DeadBySearch S (Compose.run c S (Compose.start c secs eng0) evs)) :
     (Compose.run c S (Compose.start c secs eng0) evs).dead = none := by
-  have hD := bot_dead_only_by_search c hguard hrep hfix hsize S secs eng0 evs hchk hrule
   obtain ⟨p0, _, hP⟩ := pinv_startBot c secs hsize
   have hA : ∀ (p : Pos) (m : Move) (q : Pos), p.cfg.size = c.size → p.apply c.bot.basis m = .ok q → q.cfg.size = c.size :=
     fun p m q hp ha => by rw [apply_cfg ha]; exact hp
@@ -596,6 +632,23 @@ theorem bot_never_dead_guarded (c : Compose.Conf) (hguard : c.guard = true) (hre
     obtain ⟨r, hr⟩ := hT x call.pos _ hsz hC.eng
     rw [hr] at hrun
     cases hrun
+
+/-- **`bot_never_dead_guarded`** — with a searching player that answers on every `size`×`size` position from every state
+satisfying its invariant `G` (kept by every call), the composed system NEVER loses a thinker goroutine: for every event
+list with sane check verdicts and `RuleOK`, `dead = none`.  Together with `C07.bot_no_panic` (the protocol goroutine)
+this is C07's last clause — the bot process survives every interleaving — for the code as it is.  What remains after
+`fixes/C07-fpa-record-notes.diff`, exactly: `RuleOK` for double stack / cairn (their code panics on some records that are
+not openings played by the rule, `not_variantTotal_doubleStack`), and the searcher's totality. -/
+theorem bot_never_dead_guarded (c : Compose.Conf) (hguard : c.guard = true) (hrep : c.replay = true)
+    (hfix : c.bot.fixed = true) (hsize : 3 ≤ c.size ∧ c.size ≤ 8)
+    (S : Searcher σ χ) (G : σ → Prop)
+    (hS : ∀ x p e m e', p.cfg.size = c.size → G e → S.run x p e = .ok (m, e') → G e')
+    (hT : ∀ x p e, p.cfg.size = c.size → G e → ∃ r, S.run x p e = .ok r)
+    (secs : Int) (eng0 : σ) (h0 : G eng0) (evs : List (Compose.Ev χ))
+    (hchk : ChkOK c S (Compose.start c secs eng0) evs) (hrule : RuleOK c S (Compose.start c secs eng0) evs) :
+    (Compose.run c S (Compose.start c secs eng0) evs).dead = none :=
+  never_dead_of_deadBySearch c hsize S G hS hT secs eng0 h0 evs
+    (bot_dead_only_by_search c hguard hrep hfix hsize S secs eng0 evs hchk hrule)
 
 /-- the instance the correspondence runs: the stub searcher of the harness (it answers what the schedule says), with a
 rule whose code is total -/
